@@ -415,17 +415,15 @@ def _part_c(ctx, case, rec, d):
     from sedfitter.fit_info import FitInfoFile
     from props import C19
     meta = C19._meta(d)
-    kinds = ['f0', 'f1m', 'f3mx', 'f3x', 'f1L', 'f3mW', 'f3mE', 'f3Ex', 'f3mA', 'f3mO', 'f3U']
+    kinds = ['f0', 'f1m', 'f3mx', 'f3x', 'f1L', 'f3mW', 'f3mE', 'f3Ex', 'f3mA', 'f3mO', 'f3U', 'f3mR']
     n = 0
     for L in (1, 2, 3):
         for seq in itertools.product(kinds, repeat=L):
-            recs = [C19._record(kd, i, meta) for i, kd in enumerate(seq)]
             p = os.path.join(d, 'c_%d.fitinfo' % n)
             n += 1
-            fo = FitInfoFile(p, 'w')
-            for r in recs:
-                fo.write(r)
-            fo.close()
+            # (written through the history helper of C19: a kind with R writes the very same result object as the record before
+            # it, cut down to its best fit in between; what must come back is each record as it was when it was written)
+            recs, written_c = C19._write_history(p, list(seq), meta)
             fin = FitInfoFile(p, 'r')
             got = list(fin)
             m = fin.meta
@@ -435,7 +433,7 @@ def _part_c(ctx, case, rec, d):
             rec.state(('c', seq))
             rec.cls('nan-inf-record-roundtrip')
             rec.outcome(len(got))
-            if [canon(_strip(g, True)) for g in got] != [canon(_strip(r, True)) for r in recs] or canon([m.model_dir, m.filters, m.extinction_law]) != canon(list(meta)):
+            if [canon(g) for g in got] != written_c or canon([m.model_dir, m.filters, m.extinction_law]) != canon(list(meta)):
                 rec.violation('fitinfofile|roundtrip', {'kinds': list(seq)}, {'read': len(got), 'written': len(recs)})
 
 
